@@ -872,4 +872,34 @@ Proof.
     split; [eapply fresh_not_sig; exact Ht|]. unfold owner_node. rewrite (find_by_name _ _ _ Ht). cbn [fst snd]. rewrite Hka. cbn [fst snd].
     f_equal. f_equal. lia.
 Qed.
+
+(* an invented signal bit stands for a bit of a port of the module *)
+Lemma owner_valid p id a nm k : In (id, a, nm) table -> 0 <= k < a_width a ->
+  exists i e port kk x w, owner_node p nm k = Some (NPort p i e port kk) /\ find_inst (m_insts m) i = Some x /\
+    elem_ok x e = true /\ port_width d x port = Ok w /\ 0 <= kk < w.
+Proof.
+  intros Ht Hk. unfold owner_node. rewrite (find_by_name _ _ _ Ht). cbn [fst snd].
+  destruct (tbl_In _ _ _ Ht) as [Hal _]. destruct plan_facts as [Hgood _]. rewrite Forall_forall in Hgood.
+  pose proof (Hgood a Hal) as G. unfold alloc_good in G. destruct (a_kind a) as [g o|i port] eqn:Eka.
+  - destruct G as [Hgk [Hgg [namer [Hgr Hkw]]]]. destruct (group_res_fresh g o namer Hgk Hgg Hgr) as [Hok [Co [Hnk Cn]]].
+    pose proof (conn_width d km m keys Hwm Hfrag Hkeys o namer Hok Hnk (c_trans _ _ _ _ _ (c_sym _ _ _ _ Co) Cn)) as Hcw. rewrite Hkw in Hcw.
+    apply (keys_In d km m keys Hwm Hkeys) in Hok. destruct Hok as [xo [wo [Hfo [Hso Hwo]]]].
+    unfold key_width in Hcw. rewrite Hfo in Hcw. cbn [ofopt bind] in Hcw. assert (wo = a_width a) as -> by congruence.
+    exists (fst o), 0, (snd o), k, xo, (a_width a). split; [reflexivity|]. split; [exact Hfo|]. split; [|auto].
+    unfold elem_ok. unfold single in Hso. rewrite Hso. reflexivity.
+  - destruct G as [x [w [cx [site [Hf [Hw [_ [_ Hwd]]]]]]]]. rewrite Hf, Hw.
+    destruct (find_inst_In _ _ _ Hf) as [Hx _]. destruct (pr_port_facts x port w Hx Hw) as [ports [Hp Hpw']].
+    pose proof (Hpw x ports (port, w) Hx Hp (assoc_In _ _ _ Hpw')) as Hwpos. cbn [snd] in Hwpos.
+    unfold single in *. destruct (i_n x <=? 0) eqn:Es.
+    + exists i, 0, port, k, x, w. split; [reflexivity|]. split; [exact Hf|]. split; [unfold elem_ok; rewrite Es; reflexivity|]. split; [exact Hw|lia].
+    + exists i, (k / w), port, (k mod w), x, w. split; [reflexivity|]. split; [exact Hf|]. split; [|split; [exact Hw|apply Z.mod_pos_bound; lia]].
+      unfold elem_ok. rewrite Es. assert (0 <= k / w) by (apply Z.div_pos; lia). assert (k / w < i_n x) by (apply Z.div_lt_upper_bound; nia). lia.
+Qed.
+
+(* an invented signal of the new module is in the table *)
+Lemma fresh_sig_entry s w1 : sig_width m s = None -> sig_width1 s = Some w1 -> exists id a, In (id, a, s) table /\ a_width a = w1.
+Proof.
+  unfold sig_width, sig_width1, sigs1. destruct (assoc s (m_ports m)); [discriminate|]. intros Hn H. rewrite assoc_app, Hn in H.
+  apply assoc_In in H. apply in_map_iff in H. destruct H as [[[id a] nm] [E Hin]]. cbn [fst snd] in E. inversion E; subst. eauto.
+Qed.
 End PRModule.
